@@ -20,7 +20,13 @@ pub fn check(c: bool, why: &'static str) -> Result<(), &'static str> {
     }
 }
 
+pub mod merkle;
+pub mod c04;
+pub mod c05;
 pub mod c08;
 pub mod c09;
 pub mod c10;
 pub mod c11;
+pub mod c13;
+#[cfg(feature = "recursive")]
+pub mod c14;
